@@ -272,6 +272,42 @@ def run(ctx, report):
         R1.violation('clash %s' % p, 'clash:%s:%s:%s' % (p, old.name, row.name), 'rows %s and %s both claim the decode cell %s' % (old.row.key(), row.key(), p),
                      where(arch, row.node))
 
+    # ---------------------------------------------------------------- D7 memory-only operands
+    R7 = report.rule('C01.D7', 'instructions whose ModRM operand must be memory reject register encodings', floor=60)
+    for key in sorted(U, key=lambda k: (k[0], k[1])):
+        ent = ref.get(key)
+        if ent is None or ent['kind'] != 'int' or not ent['sigs']:
+            continue
+        # memory-only: every signature alternative has a token whose alternatives are all M-codes
+        def mem_only(sig):
+            return any(all(a.startswith('M') for a in tok) for tok in sig)
+        if any(not s_ for s_ in ent['sigs']):
+            continue          # the register encodings of this unit are other instructions without operand (lfence ...)
+        sigs = [s_ for s_ in ent['sigs'] if s_]
+        if not sigs or not all(mem_only(s_) for s_ in sigs):
+            continue
+        kstr = '%s%s' % (' '.join('%02X' % b for b in key[0]), (' ' + key[1]) if key[1] else '')
+        done = set()
+        for c in U[key]:
+            if c.row.idx in done:
+                continue
+            done.add(c.row.idx)
+            if isinstance(c.row.afs, int):
+                # live mod=3 cells of this /digit row?
+                live3 = [p_ for p_, cc in X.cells.items() if cc.row is c.row and cc.opc == c.opc and p_[-1] >= 0xC0]
+                if not live3:
+                    R7.ok('%s %s' % (kstr, c.name), sample='%s %s: mod=3 cells belong to register rows' % (kstr, c.name), nontrivial=False)
+                    continue
+                rej = X.dis_digit_reg_rejected(c.modifs, c.row.rm, c.name, c.opc)
+            else:
+                rej = X.dis_rmr_reg_rejected(c.modifs, c.name)
+            inst = '%s %s' % (kstr, c.name)
+            if rej:
+                R7.ok(inst, sample='%s: a register r/m operand is rejected' % inst)
+            else:
+                R7.violation(inst, 'memonly:%s:%s' % (kstr, c.name), '%s (%s) takes a memory operand only, but the decoder accepts ModRM.mod == 3 and reports a register operand (ref line %d: %s)'
+                             % (kstr, c.name, ent['line'], ent['text']), where(arch, c.row.node), witness='0f 01 d0 (xgetbv) decodes as lgdt eax' if c.name == 'lgdt' else None)
+
     # ---------------------------------------------------------------- D2 bookkeeping
     R2 = report.rule('C01.D2', 'length, raw bytes and offset are the consumed window of the input', floor=6)
     dis = arch.method('x86_mn', '_dis')
@@ -751,6 +787,7 @@ def run(ctx, report):
 
 
 MUTANTS = [
+    ('memonly-lea-reg', 'miasmx/arch/ia32_arch.py', "                  'lea', 'lds', 'les', 'lss', 'lfs', 'lgs', 'bound',", "                  'lds', 'les', 'lss', 'lfs', 'lgs', 'bound',", 'C01.D7'),
     ('mmx-admode16-accepted', 'miasmx/arch/ia32_arch.py', "                if self.admode == u16:\n                    # 16-bit addressing of MMX/SSE operands is not", "                if False:\n                    # 16-bit addressing of MMX/SSE operands is not", 'C01.D5'),
     ('crdr-mod-honoured', 'miasmx/arch/ia32_arch.py', "                        c |= 0xC0\n", "                        pass\n", 'C01.D6'),
     ('sreg-6-7-decoded', 'miasmx/arch/ia32_arch.py', "                    if m.modifs[sg] and ((c>>3)&7) > 5:", "                    if m.modifs[sg] and ((c>>3)&7) > 7:", 'C01.D6'),
